@@ -501,6 +501,9 @@ func loadReplayKey(c *Ctx) {
 		return
 	}
 	b, err := os.ReadFile(c.Replay)
+	if err != nil { // bin/check runs the harness from harness/: a path relative to the repository root
+		b, err = os.ReadFile("../" + c.Replay)
+	}
 	if err != nil {
 		c.R.Note("replay file unreadable: %v", err)
 		return
